@@ -1072,4 +1072,263 @@ theorem evalText_quote (k : Nat) (st : Interp.State) (D : Datum) (hD : Supported
   unfold Interp.evalText.go
   simp only [n5]
 
+/-! ## `Readable` is the inductive predicate `ReadableI`: nesting deeper than the number of
+cells means a cycle -/
+
+theorem readableI_step (σ : Store) (R : Value → Bool) (H : ∀ x, R x = true → ReadableI σ x) :
+    ∀ v, readableStep σ R v = true → ReadableI σ v := by
+  intro v
+  induction v with
+  | num x =>
+    intro h
+    cases x with
+    | int i => exact .int i h
+    | rat n d => exact .rat n d (of_decide_eq_true h)
+    | real r => simp [readableStep] at h
+  | bool b => intro _; exact .bool b
+  | char c => intro _; exact .char c
+  | sym s => intro h; exact .sym s h
+  | nil => intro _; exact .nil
+  | pair a d iha ihd =>
+    intro h
+    simp only [readableStep, Bool.and_eq_true] at h
+    exact .pair (iha h.1) (ihd h.2)
+  | vec id =>
+    intro h
+    simp only [readableStep] at h
+    split at h
+    next cell hc =>
+      refine .vec hc ?_
+      have hall := List.all_eq_true.1 h
+      generalize cell.items = items at hall
+      induction items with
+      | nil => exact .nil
+      | cons x xs ih =>
+        exact .cons (H x (hall x (by simp))) (ih (fun y hy => hall y (by simp [hy])))
+    next => simp at h
+  | str s => intro h; simp [readableStep] at h
+  | closure l e => intro h; simp [readableStep] at h
+  | builtin b => intro h; simp [readableStep] at h
+  | transformer r => intro h; simp [readableStep] at h
+  | void => intro h; simp [readableStep] at h
+
+theorem readableI_of_readableN (σ : Store) (n : Nat) :
+    ∀ v, readableN σ n v = true → ReadableI σ v := by
+  induction n with
+  | zero => exact readableI_step σ _ (fun x h => by simp at h)
+  | succ n ih => exact readableI_step σ _ ih
+
+mutual
+theorem readableN_of_readableI (σ : Store) : ∀ {v : Value}, ReadableI σ v →
+    ∃ n, readableN σ n v = true
+  | _, .int i h => ⟨0, h⟩
+  | _, .rat n d h => ⟨0, decide_eq_true h⟩
+  | _, .bool b => ⟨0, rfl⟩
+  | _, .char c => ⟨0, rfl⟩
+  | _, .sym s h => ⟨0, h⟩
+  | _, .nil => ⟨0, rfl⟩
+  | _, .pair ha hd => by
+    obtain ⟨n, hn⟩ := readableN_of_readableI σ ha
+    obtain ⟨m, hm⟩ := readableN_of_readableI σ hd
+    refine ⟨max n m, ?_⟩
+    rw [readableN_pair, Bool.and_eq_true]
+    exact ⟨readableN_le σ (Nat.le_max_left n m) _ hn, readableN_le σ (Nat.le_max_right n m) _ hm⟩
+  | _, .vec (cell := cell) hc hs => by
+    obtain ⟨n, hn⟩ := readableNs_of_readableIs σ hs
+    refine ⟨n + 1, ?_⟩
+    simp only [readableN, readableStep, hc]
+    exact List.all_eq_true.2 hn
+theorem readableNs_of_readableIs (σ : Store) : ∀ {vs : List Value}, ReadableIs σ vs →
+    ∃ n, ∀ x ∈ vs, readableN σ n x = true
+  | _, .nil => ⟨0, by simp⟩
+  | _, .cons hx hxs => by
+    obtain ⟨n, hn⟩ := readableN_of_readableI σ hx
+    obtain ⟨m, hm⟩ := readableNs_of_readableIs σ hxs
+    refine ⟨max n m, ?_⟩
+    intro y hy
+    rcases List.mem_cons.1 hy with rfl | hy
+    · exact readableN_le σ (Nat.le_max_left n m) _ hn
+    · exact readableN_le σ (Nat.le_max_right n m) _ (hm y hy)
+end
+
+/-- if two consecutive levels agree on all vectors, they agree on all values -/
+theorem stab_step (σ : Store) (k : Nat)
+    (H : ∀ id, readableN σ (k + 1) (.vec id) = readableN σ k (.vec id)) :
+    ∀ x, readableN σ (k + 1) x = readableN σ k x := by
+  intro x
+  induction x with
+  | pair a d iha ihd => rw [readableN_pair, readableN_pair, iha, ihd]
+  | vec id => exact H id
+  | num y => cases k <;> cases y <;> rfl
+  | _ => cases k <;> rfl
+
+theorem stab_next (σ : Store) (k : Nat)
+    (H : ∀ id, readableN σ (k + 1) (.vec id) = readableN σ k (.vec id)) :
+    ∀ id, readableN σ (k + 2) (.vec id) = readableN σ (k + 1) (.vec id) := by
+  intro id
+  have h := stab_step σ k H
+  show readableStep σ (readableN σ (k + 1)) (.vec id) = readableStep σ (readableN σ k) (.vec id)
+  simp only [readableStep]
+  split
+  · have : readableN σ (k + 1) = readableN σ k := funext h
+    rw [this]
+  · rfl
+
+theorem stab_all (σ : Store) (k : Nat)
+    (H : ∀ id, readableN σ (k + 1) (.vec id) = readableN σ k (.vec id)) :
+    ∀ j, k ≤ j → ∀ x, readableN σ j x = readableN σ k x := by
+  intro j hj
+  induction hj with
+  | refl => intro x; rfl
+  | @step m hm ih =>
+    intro x
+    have Hm : ∀ id, readableN σ (m + 1) (.vec id) = readableN σ m (.vec id) := by
+      clear ih
+      induction hm with
+      | refl => exact H
+      | step _ ih' => exact stab_next σ _ ih'
+    rw [stab_step σ m Hm x, ih x]
+
+theorem countP_eq_imp {α} (p q : α → Bool) (l : List α) (hpq : ∀ x ∈ l, p x = true → q x = true)
+    (hc : l.countP p = l.countP q) : ∀ x ∈ l, q x = true → p x = true := by
+  induction l with
+  | nil => intro x hx; cases hx
+  | cons a l ih =>
+    have hle : l.countP p ≤ l.countP q :=
+      List.countP_mono_left (fun x hx => hpq x (by simp [hx]))
+    simp only [List.countP_cons] at hc
+    by_cases hp : p a = true
+    · have hq := hpq a (by simp) hp
+      simp only [hp, hq, if_true] at hc
+      intro x hx hqx
+      rcases List.mem_cons.1 hx with rfl | hx
+      · exact hp
+      · exact ih (fun y hy => hpq y (by simp [hy])) (by omega) x hx hqx
+    · by_cases hq : q a = true
+      · simp only [hp, hq, if_true] at hc
+        simp at hc
+        omega
+      · simp only [hp, hq] at hc
+        intro x hx hqx
+        rcases List.mem_cons.1 hx with rfl | hx
+        · exact absurd hqx hq
+        · exact ih (fun y hy => hpq y (by simp [hy])) (by simpa using hc) x hx hqx
+
+/-- number of cells whose vector is readable at level `k` -/
+def lvlCount (σ : Store) (k : Nat) : Nat :=
+  (List.range σ.vecs.size).countP (fun id => readableN σ k (.vec id))
+
+theorem lvlCount_le (σ : Store) (k : Nat) : lvlCount σ k ≤ σ.vecs.size := by
+  have := List.countP_le_length (p := fun id => readableN σ k (.vec id)) (l := List.range σ.vecs.size)
+  simpa [lvlCount] using this
+
+theorem lvlCount_mono (σ : Store) (k : Nat) : lvlCount σ k ≤ lvlCount σ (k + 1) :=
+  List.countP_mono_left (fun id _ h => readableN_succ σ k _ h)
+
+theorem readableN_vec_oob (σ : Store) (k id : Nat) (h : σ.vecs.size ≤ id) :
+    readableN σ k (.vec id) = false := by
+  have : σ.vecs[id]? = none := Array.getElem?_eq_none h
+  cases k <;> simp [readableN, readableStep, this]
+
+theorem lvl_stable_of_count (σ : Store) (k : Nat) (h : lvlCount σ k = lvlCount σ (k + 1)) :
+    ∀ id, readableN σ (k + 1) (.vec id) = readableN σ k (.vec id) := by
+  intro id
+  rcases Nat.lt_or_ge id σ.vecs.size with hid | hid
+  · have := countP_eq_imp (fun id => readableN σ k (.vec id))
+      (fun id => readableN σ (k + 1) (.vec id)) (List.range σ.vecs.size)
+      (fun i _ h => readableN_succ σ k _ h) h id (List.mem_range.2 hid)
+    cases h1 : readableN σ (k + 1) (.vec id) with
+    | true => exact (this h1).symm
+    | false =>
+      cases h2 : readableN σ k (.vec id) with
+      | false => rfl
+      | true => rw [readableN_succ σ k _ h2] at h1; cases h1
+  · rw [readableN_vec_oob σ _ id hid, readableN_vec_oob σ _ id hid]
+
+theorem exists_stable (σ : Store) : ∃ k, k ≤ σ.vecs.size ∧ lvlCount σ k = lvlCount σ (k + 1) := by
+  apply Classical.byContradiction
+  intro hne
+  have hne' : ∀ k, k ≤ σ.vecs.size → lvlCount σ k ≠ lvlCount σ (k + 1) :=
+    fun k hk he => hne ⟨k, hk, he⟩
+  have grow : ∀ m, m ≤ σ.vecs.size + 1 → m ≤ lvlCount σ m := by
+    intro m
+    induction m with
+    | zero => intro _; exact Nat.zero_le _
+    | succ m ih =>
+      intro hm
+      have h1 := ih (by omega)
+      have h2 := lvlCount_mono σ m
+      have h3 := hne' m (by omega)
+      omega
+  have := grow (σ.vecs.size + 1) (Nat.le_refl _)
+  have := lvlCount_le σ (σ.vecs.size + 1)
+  omega
+
+/-- PIGEONHOLE: whatever is readable at some level is readable at level `σ.vecs.size` -/
+theorem readableN_size (σ : Store) (n : Nat) (v : Value) (h : readableN σ n v = true) :
+    readableN σ σ.vecs.size v = true := by
+  rcases Nat.le_total n σ.vecs.size with hn | hn
+  · exact readableN_le σ hn v h
+  · obtain ⟨k, hk, hc⟩ := exists_stable σ
+    have hs := stab_all σ k (lvl_stable_of_count σ k hc)
+    rw [hs n (by omega) v] at h
+    exact readableN_le σ hk v h
+
+theorem readable_iff_readableI (σ : Store) (v : Value) : Readable σ v ↔ ReadableI σ v :=
+  ⟨readableI_of_readableN σ _ v, fun h => by
+    obtain ⟨n, hn⟩ := readableN_of_readableI σ h
+    exact readableN_size σ n v hn⟩
+
+/-! ## the datum does not depend on the level; equal values have the same datum -/
+
+theorem datumOf_eq_datumN (σ : Store) (n : Nat) (v : Value) (h : readableN σ n v = true) :
+    datumN σ n v = datumOf σ v := by
+  unfold datumOf
+  rcases Nat.le_total n σ.vecs.size with hn | hn
+  · exact (datumN_le σ hn v h).symm
+  · exact datumN_le σ hn v (readableN_size σ n v h)
+
+theorem equalVs_same (σ₁ σ₂ : Store) (R₁ R₂ : Value → Bool) (D₁ D₂ : Value → Datum)
+    (H : ∀ x y, EqualV σ₁ σ₂ x y → R₁ x = true → R₂ y = true ∧ D₂ y = D₁ x) :
+    ∀ {xs ys : List Value}, EqualVs σ₁ σ₂ xs ys → xs.all R₁ = true →
+      ys.all R₂ = true ∧ ys.map D₂ = xs.map D₁
+  | _, _, .nil, _ => ⟨rfl, rfl⟩
+  | _, _, .cons hx hxs, h => by
+    simp only [List.all_cons, Bool.and_eq_true] at h
+    obtain ⟨a1, a2⟩ := H _ _ hx h.1
+    obtain ⟨b1, b2⟩ := equalVs_same σ₁ σ₂ R₁ R₂ D₁ D₂ H hxs h.2
+    simp [a1, a2, b1, b2]
+
+theorem equal_step (σ₁ σ₂ : Store) (R₁ R₂ : Value → Bool) (D₁ D₂ : Value → Datum)
+    (H : ∀ x y, EqualV σ₁ σ₂ x y → R₁ x = true → R₂ y = true ∧ D₂ y = D₁ x) :
+    ∀ {v w : Value}, EqualV σ₁ σ₂ v w → readableStep σ₁ R₁ v = true →
+      readableStep σ₂ R₂ w = true ∧ datumStep σ₂ D₂ w = datumStep σ₁ D₁ v
+  | _, _, .num x, h => by cases x <;> exact ⟨h, rfl⟩
+  | _, _, .bool b, h => ⟨h, rfl⟩
+  | _, _, .char c, h => ⟨h, rfl⟩
+  | _, _, .str s, h => ⟨h, rfl⟩
+  | _, _, .sym s, h => ⟨h, rfl⟩
+  | _, _, .nil, h => ⟨h, rfl⟩
+  | _, _, .pair ha hd, h => by
+    simp only [readableStep, Bool.and_eq_true] at h
+    obtain ⟨a1, a2⟩ := equal_step σ₁ σ₂ R₁ R₂ D₁ D₂ H ha h.1
+    obtain ⟨b1, b2⟩ := equal_step σ₁ σ₂ R₁ R₂ D₁ D₂ H hd h.2
+    simp [readableStep, datumStep, a1, a2, b1, b2]
+  | _, _, .vec h1 h2 hs, h => by
+    simp only [readableStep, h1] at h
+    obtain ⟨a1, a2⟩ := equalVs_same σ₁ σ₂ R₁ R₂ D₁ D₂ H hs h
+    simp [readableStep, datumStep, h1, h2, a1, a2]
+
+theorem equal_datumN (σ₁ σ₂ : Store) (n : Nat) : ∀ v w, EqualV σ₁ σ₂ v w →
+    readableN σ₁ n v = true → readableN σ₂ n w = true ∧ datumN σ₂ n w = datumN σ₁ n v := by
+  induction n with
+  | zero => exact fun v w he h => equal_step σ₁ σ₂ _ _ _ _ (fun x y _ hx => by simp at hx) he h
+  | succ n ih => exact fun v w he h => equal_step σ₁ σ₂ _ _ _ _ ih he h
+
+/-- structurally equal values: if one is readable so is the other, with the same datum -/
+theorem equal_datumOf (σ₁ σ₂ : Store) (v w : Value) (he : EqualV σ₁ σ₂ v w)
+    (hv : Readable σ₁ v) : Readable σ₂ w ∧ datumOf σ₂ w = datumOf σ₁ v := by
+  obtain ⟨h1, h2⟩ := equal_datumN σ₁ σ₂ _ v w he hv
+  exact ⟨readableN_size σ₂ _ w h1, by rw [← datumOf_eq_datumN σ₂ _ w h1, h2]; rfl⟩
+
 end Ruschm.Print
